@@ -20,6 +20,7 @@ from .values import (
     JSArray,
     JSFunction,
     JSRegExp,
+    JSTypedArray,
     JSBoundMethod,
     JS_WHITESPACE,
     to_string,
@@ -323,6 +324,11 @@ class Context:
                 return prop == "length" or (
                     prop.isdigit() and prop.isascii() and str(int(prop)) == prop and int(prop) < len(this_val)
                 )
+            if isinstance(this_val, JSTypedArray):
+                # The elements are own properties; length lives on the prototype
+                if prop.isdigit() and prop.isascii() and str(int(prop)) == prop:
+                    return int(prop) < this_val.length
+                return this_val.has(prop)
             if isinstance(this_val, JSArray):
                 # For arrays, check both properties and array indices
                 try:
